@@ -17,16 +17,55 @@ def sh(cmd, cwd=None, env=None, timeout=3600):
     p = subprocess.run(cmd, cwd=cwd, env=e, shell=isinstance(cmd, str), stdout=subprocess.PIPE, stderr=subprocess.STDOUT, text=True, timeout=timeout)
     return p.returncode, p.stdout
 
+def run_checks(src, checks):
+    rc, out = sh(["git", "-C", "/repo", "status", "--short"])
+    if out.strip():
+        print("refusing: /repo working tree is not clean"); print(out); return None
+    sh(["git", "-C", "/repo", "apply", os.path.join(src, "patch.diff")])
+    r = {}
+    try:
+        for c in checks:
+            rc, out = sh(["/verif/check", c], cwd="/verif", env={"VERIF_SCRATCH": "1"}, timeout=3600)
+            lines = [l[:300] for l in out.split("\n") if l.startswith("VIOLATION") or l.startswith("[K/O]") or l.startswith("[S]") or l.startswith("[P]") or l.startswith("[K]")]
+            r[c] = {"exit": rc, "lines": lines}
+    finally:
+        sh(["git", "-C", "/repo", "checkout", "--", "."])
+    return r
+
+def recheck_only(pid, src, meta, checks):
+    """the seed was already confirmed; only re-run the registered checks against it"""
+    dst = "/verif/seeded/%s" % pid
+    old = json.load(open(os.path.join(dst, "meta.json"))) if os.path.exists(os.path.join(dst, "meta.json")) else meta
+    r = run_checks(dst if os.path.exists(os.path.join(dst, "patch.diff")) else src, checks)
+    if r is None: return 2
+    old.setdefault("verification", {}).setdefault("checks", {})
+    hist = old.setdefault("earlier_runs", [])
+    for c in checks:
+        if c in old["verification"]["checks"]:
+            hist.append({c: old["verification"]["checks"][c]})
+        old["verification"]["checks"][c] = r[c]
+    old["verification"]["rechecked_at"] = time.strftime("%Y-%m-%dT%H:%M:%SZ", time.gmtime())
+    old["detected_by"] = {c: ("caught" if v["exit"] != 0 else "MISSED") for c, v in old["verification"]["checks"].items()}
+    json.dump(old, open(os.path.join(dst, "meta.json"), "w"), indent=1)
+    print(json.dumps(r, indent=1))
+    return 0
+
 def main():
     pid = sys.argv[1]
     src = "/tmp/seed-%s/OUT" % pid
     checks = [pid]
+    recheck = False
     a = sys.argv[2:]
     while a:
         if a[0] == "--src": src = a[1]; a = a[2:]
         elif a[0] == "--checks": checks = a[1].split(","); a = a[2:]
+        elif a[0] == "--recheck": recheck = True; a = a[1:]
         else: a = a[1:]
+    if "--recheck" in sys.argv and not os.path.isdir(src):
+        src = "/verif/seeded/%s" % pid
     meta = json.load(open(os.path.join(src, "meta.json")))
+    if "--recheck" in sys.argv:
+        return recheck_only(pid, src, meta, checks if "--checks" in sys.argv else [pid])
     demo_cmd = open(os.path.join(src, "demo_cmd.txt")).read().strip().split("\n")[-1].strip()
     wt = "/tmp/sv-%s" % pid
     tgt = "/tmp/sv-%s-target" % pid
@@ -57,21 +96,18 @@ def main():
         res["patch_applies"] = rc == 0
         rc, out = sh("cargo build --workspace --offline 2>&1 | tail -3", cwd=wt, env=env)
         res["builds"] = "Finished" in out or rc == 0
-        rc, out = sh("cargo test --workspace --no-fail-fast --offline 2>&1 | grep -E '^test result|FAILED|failed|^error'", cwd=wt, env=env)
-        # the demo itself is part of the workspace now: ignore its own failure
-        demo_name = os.path.basename(demo_dst)[:-3]
-        import re as _re
-        fails = [l for l in out.split("\n") if ("FAILED" in l or _re.search(r"[1-9]\d* failed", l) or l.startswith("error")) and demo_name not in l]
+        # the pinned suite, without the demonstration file in the tree
+        os.rename(demo_dst, demo_dst + ".aside")
+        rc, out = sh("cargo test --workspace --no-fail-fast --offline 2>&1 | grep -E '^test result|FAILED|^error'", cwd=wt, env=env)
+        os.rename(demo_dst + ".aside", demo_dst)
         passed = sum(int(x) for x in re.findall(r"(\d+) passed", out))
         failed = sum(int(x) for x in re.findall(r"(\d+) failed", out))
-        res["suite"] = {"passed": passed, "failed_incl_demo": failed, "other_failures": fails[:5]}
+        fails = [l for l in out.split("\n") if "FAILED" in l or l.startswith("error")]
+        res["suite"] = {"passed": passed, "failed": failed, "failures": fails[:5]}
+        res["suite_passes"] = failed == 0 and not fails and passed >= 200
         rc1, out1 = sh(cmd, cwd=wt, env=env)
         res["demo_with_patch"] = "fail" if rc1 != 0 else "PASSES"
-        # suite passes apart from the demo?
-        demo_fail_count = len(re.findall(r"test \S+ \.\.\. FAILED", out1))
-        # failures in the workspace run must all come from the demo target itself
-        res["suite_passes_apart_from_demo"] = (failed == demo_fail_count or failed <= demo_fail_count) and not [f for f in fails if "test result" not in f]
-        res["demo_failures"] = demo_fail_count
+        res["demo_failures"] = len(re.findall(r"test \S+ \.\.\. FAILED", out1))
     finally:
         sh(["git", "-C", "/repo", "worktree", "remove", "--force", wt]); shutil.rmtree(wt, ignore_errors=True); shutil.rmtree(tgt, ignore_errors=True)
     # run the checks against /repo with the patch applied
